@@ -1,6 +1,6 @@
-"""C43: testbench helpers call methods exactly once (TestbenchIO.call / call_try / call_result / call_do, CallTrigger).
+"""C43: testbench helpers call methods exactly once (TestbenchIO.call / call_try / call_result / call_do, CallTrigger, MethodMock.effect_process).
 
-Two halves, joined by the equation `done_t = en_t & ready_t`:
+Three parts, joined by the equation `done_t = en_t & ready_t`:
 
 (a) Python half (E4).  The REAL coroutines `TestbenchIO.call`, `call_try`, `call_result`, `call_init`+`call_do`,
     `get_call_result`, `CallTrigger.__await__ / until_done / until_all_done` run on top of the REAL
@@ -22,10 +22,20 @@ Two halves, joined by the equation `done_t = en_t & ready_t`:
     <=> en & caller requests (& validator result)`, `done => data_out == the caller's argument`, and the caller's
     result equals the adapter's `data_in` in the same cycle (also for two simultaneous callers of a nonexclusive mock).
 
-OUTSIDE the claim: "a MethodMock applies its effects exactly once per executed call" - this is a property of the
-co-operation of `MethodMock.output_process / validate_arguments_process / effect_process` under amaranth.sim's
-delta-cycle scheduling of three coroutines; a stub of that scheduler would be this check's invention, and the real
-simulator concretises symbolic values.  Only the hardware half of the mock is covered.
+(c) `MethodMock.effect_process` IN ISOLATION (E4).  A real `MethodMock` around a real `Adapter` is built and its REAL
+    `effect_process` coroutine runs on the same stub engine for 4 clock cycles with a symbolic `done_t = en_t & called_t`
+    per edge.  At the end of every cycle the harness registers 0..2 recording closures through the real
+    `MethodMock.effect` (what `output_process` does when it evaluates the mocked function) and sets `_freeze` (what
+    `output_process` does at the edge).  Asserted per path: the closures pending at edge t are executed - once each,
+    in registration order, before the next edge - iff `done_t`, and never later; after the iteration `_effects` is empty
+    and `_freeze` is False; `en` is lowered at the edge and set to the next `enable()` result only after
+    `sim.delay(self.delay)`; the process awaits nothing but clock ticks and that delay and never finishes.
+
+OUTSIDE the claim: `MethodMock.output_process` and `validate_arguments_process` and the delta-cycle co-operation of the
+three processes under amaranth.sim (which evaluation of the mocked function is the last one before the edge, when
+`_freeze` takes effect relative to `done`): a stub of that scheduler would be this check's invention, and the real
+simulator concretises symbolic values.  So "effects exactly once per executed call" is established for
+`effect_process` given the effect list `output_process` left behind, plus the hardware half of the mock (b).
 """
 import z3
 
@@ -41,11 +51,14 @@ TECHNIQUE = ("symbolic execution of the real testbench coroutines over the real 
 BOUNDS = {
     "quick": "readiness histories of 4 cycles (all 2^4, plus symbolic outputs) for call / call_do, 2 for call_try / call_result / get_call_result; "
              "CallTrigger with two calls + a sampled signal + a sampled (not called) method over 1 cycle, until_done / until_all_done with two calls "
-             "over 3 cycles; output layouts: none, 2 bits, struct {2,1}; netlist: argument / result widths 1..2, Adapter plain / validate_arguments / nonexclusive with 2 callers",
-    "thorough": "readiness histories of 6 cycles (call / call_do), until_done / until_all_done over 4 cycles, two argument values per scenario; netlist widths 1..4",
+             "over 3 cycles; output layouts: none, 2 bits, struct {2,1}; MethodMock.effect_process: 4 cycles, all done histories, 2 effect-count patterns x 3 enable() "
+             "patterns x delay {0, 1 ns}; netlist: argument / result widths 1..2, Adapter plain / validate_arguments / nonexclusive with 2 callers",
+    "thorough": "readiness histories of 6 cycles (call / call_do), until_done / until_all_done over 4 cycles, two argument values per scenario; effect_process: 4 effect-count patterns x all 32 enable() patterns x 2 delays; "
+                "netlist widths 1..4",
 }
-OUTSIDE = ["MethodMock.output_process / validate_arguments_process / effect_process and their interplay ('effects exactly once per executed call'): "
-           "depends on amaranth.sim delta-cycle scheduling of three coroutines", "def_method_mock discovery, async_mock_def_helper argument passing",
+OUTSIDE = ["MethodMock.output_process / validate_arguments_process and the delta-cycle interplay of the three mock processes (which evaluation of the mocked "
+           "function fills the effect list that effect_process finds at the edge): depends on amaranth.sim scheduling of three coroutines; effect_process alone is inside",
+           "def_method_mock discovery, async_mock_def_helper argument passing",
            "the real simulation engine (pysim): replaced by a stub engine implementing the documented contract of set / get / tick().sample()",
            "resets during a call (DomainReset), several testbenches driving the same adapter, BrokenTrigger",
            "readiness histories longer than the bound (the loop body is the same in every iteration, but this is not an inductive proof)",
@@ -57,6 +70,9 @@ ASSUMES = ["stub engine: set_value takes effect immediately; awaiting a tick tri
            "sampled struct values are stand-ins for amaranth.lib.data.Const: field f = bits [offset, offset+width) of the sampled bit pattern",
            "no reset during the test; nobody else drives `en` of a called adapter; for call_result / sample(tbio) `en` is driven by another process (symbolic per cycle)",
            "coroutines are driven with send(None); the stub's awaitables never suspend",
+           "effect_process scenario: `await sim.delay(x)` returns without a clock edge passing; the effect list found at edge t is what the harness registered during "
+           "cycle t through MethodMock.effect (0..2 closures, fixed per configuration) and `_freeze` was set at the edge; enable() answers follow a fixed 0/1 "
+           "pattern per configuration (real TestbenchContext.set needs concrete values); done_t = en_t & called_t with called_t symbolic",
            "netlist half: single clock domain, FSM-free designs, every pin (ready, request, argument, result, validator answer) is a free input"]
 TRUSTED = ["vf/pysym.py proxies and fork enumeration (path coverage is a solver query per scenario)", "amaranth.sim._async TickTrigger / TriggerCombination / "
            "TestbenchContext (real classes, executed)", "Amaranth 0.5 elaboration and NIR netlist construction", "vf/nir2smt.py translator (counterexamples replayed on amaranth.sim)", "z3 5.1.0"]
@@ -64,6 +80,7 @@ FUNCTIONS = ["transactron/testing/testbenchio.py:CallTrigger.__await__", "transa
              "transactron/testing/testbenchio.py:CallTrigger.until_done", "transactron/testing/testbenchio.py:CallTrigger.until_all_done",
              "transactron/testing/testbenchio.py:TestbenchIO.call", "transactron/testing/testbenchio.py:TestbenchIO.call_try", "transactron/testing/testbenchio.py:TestbenchIO.call_result",
              "transactron/testing/testbenchio.py:TestbenchIO.call_do", "transactron/testing/testbenchio.py:TestbenchIO.call_init", "transactron/testing/testbenchio.py:TestbenchIO.get_call_result",
+             "transactron/testing/method_mock.py:MethodMock.effect_process", "transactron/testing/method_mock.py:MethodMock.effect",
              "transactron/lib/adapters.py:AdapterTrans.elaborate", "transactron/lib/adapters.py:Adapter.elaborate"]
 W = 24
 LAYOUTS = {"none": [], "u2": [("y", 2)], "s21": [("a", 2), ("b", 1)]}
@@ -94,6 +111,16 @@ def configs(tier, seed):
         out.append(dict(mode="py", scen="trigger", K=2, lay=lay, args=argsets[0]))
         for which in ("until_done", "until_all_done"):
             out.append(dict(mode="py", scen=which, K=3 if tier == "quick" else 4, lay=lay, args=argsets[0]))
+    Ke = 4
+    count_pats = [[2, 1, 0, 2], [1, 2, 2, 1]] + ([[0, 0, 1, 2], [2, 2, 2, 2]] if tier == "thorough" else [])
+    if tier == "quick":
+        en_pats = [[1, 1, 1, 1, 1], [1, 0, 1, 1, 0], [0, 1, 1, 0, 1]]
+    else:
+        en_pats = [[(v >> i) & 1 for i in range(Ke + 1)] for v in range(1 << (Ke + 1))]
+    for counts in count_pats:
+        for en in en_pats:
+            for delay in (0, 1e-9):
+                out.append(dict(mode="py", scen="effect_process", K=Ke, lay="none", counts=counts, enable=en, delay=delay))
     return out
 
 
@@ -318,6 +345,8 @@ class _World:
                 self.by_sig[id(getattr(e, "sig_" + role))] = (e, role)
         self.rst = None
         self.awaits = 0
+        self.events = []         # everything the code under test did to the engine, in order
+        self.before_edge = None  # harness hook: called at the very end of cycle t, before the edge samples
 
     # -- symbolic inputs of the world
     def _bool(self, name):
@@ -411,6 +440,7 @@ class _World:
             raise Unsupported(f"stub engine: set of {expr!r}")
         e, role = hit
         e.sets.append((self.t, role, value))
+        self.events.append(("set", role, value))
         if role == "en":
             e.en = value
         else:
@@ -425,8 +455,20 @@ class _World:
     def clock_edge(self, combination):
         from amaranth.sim._async import SampleTrigger, EdgeTrigger
 
+        from amaranth.sim._async import DelayTrigger
+
+        trgs = combination._triggers
+        if trgs and all(isinstance(trg, DelayTrigger) for trg in trgs):  # await sim.delay(x): no clock edge passes
+            self.events.append(("delay", tuple(trg.interval_fs for trg in trgs)))
+            return tuple(True for _ in trgs)
+        if not any(isinstance(trg, EdgeTrigger) for trg in trgs):
+            self.events.append(("other", tuple(type(trg).__name__ for trg in trgs)))
+            raise _SimEnd()
         if self.t >= self.K:
             raise _SimEnd()
+        if self.before_edge is not None:
+            self.before_edge(self.t)
+        self.events.append(("edge", self.t))
         res = []
         for trg in combination._triggers:
             if isinstance(trg, EdgeTrigger):
@@ -598,6 +640,68 @@ def _scenario(cfg, eng, env=None):
         J.add(f"{scen}: exactly one executed call (sum over all cycles of en & ready)", executed(world, e) == 1)
         return f"done@{d}", J.ob
 
+    if scen == "effect_process":
+        from transactron.lib import Adapter
+        from transactron.testing.method_mock import MethodMock
+
+        ad = Adapter(name="mocked", i=lay_in, o=LAYOUTS["u2"])
+        en_seq, counts = [bool(x) for x in cfg["enable"]], cfg["counts"]
+        ncalls = [0]
+
+        def enable():
+            ncalls[0] += 1
+            return en_seq[ncalls[0] - 1] if ncalls[0] <= len(en_seq) else False
+
+        mock = MethodMock(ad, lambda arg: None, enable=enable, delay=cfg["delay"])
+
+        class _Holder:
+            adapter = ad
+
+        e = _Endpoint("mk", _Holder, ext=False)
+        world = _World(eng, K, [e], env)
+        sim = _context(world)
+        left = []  # (pending effects, _freeze) as left behind by the previous iteration, seen at the end of each cycle
+
+        def before_edge(t):
+            left.append((len(mock._effects), mock._freeze))
+            for j in range(counts[t]):  # what output_process does during the cycle: the mocked function registers effects ...
+                def eff(t=t, j=j):
+                    world.events.append(("eff", t, j))
+
+                with mock._context():
+                    MethodMock.effect(eff)
+            mock._freeze = True  # ... and the mock is frozen at the clock edge
+
+        world.before_edge = before_edge
+        kind, _ = _drive(mock.effect_process(sim))
+        left.append((len(mock._effects), mock._freeze))
+        ev = world.events
+        edges = [i for i, x in enumerate(ev) if x[0] == "edge"]
+        J.add("effect_process waits only for clock ticks and its delay (no other trigger)", not any(x[0] == "other" for x in ev))
+        J.add("effect_process handles every clock edge of the simulation and never finishes by itself", kind == "end" and len(edges) == K)
+        J.add("before the first edge the method is enabled according to enable()", ev[:edges[0]] == [("set", "en", int(en_seq[0]))] if edges else False)
+        pattern = ""
+        for t, pos in enumerate(edges):
+            seg = ev[pos + 1:edges[t + 1]] if t + 1 < len(edges) else ev[pos + 1:]
+            effs = [x[1:] for x in seg if x[0] == "eff"]
+            rest = [x for x in seg if x[0] != "eff"]
+            done_t = z3.And(e.en_hist[t], world.ready(e, t)) if t < len(e.en_hist) else F
+            mine = [(t, j) for j in range(counts[t])]
+            if effs == mine and mine:
+                J.add(f"edge {t}: the pending effects are applied (once, in registration order) only if the method executed on this edge", done_t)
+                pattern += "X"
+            elif not effs:
+                J.add(f"edge {t}: pending effects are dropped only if the method did not execute on this edge", z3.Not(done_t) if mine else T)
+                pattern += "-"
+            else:
+                J.add(f"edge {t}: exactly the effects registered in this cycle are applied, once each, in registration order (applied: {effs})", F)
+                pattern += "?"
+            exp_rest = [("set", "en", 0), ("delay", (round(float(cfg["delay"]) * 1e15),)), ("set", "en", int(en_seq[t + 1]))]
+            J.add(f"edge {t}: en is lowered at the edge and set to enable() again after sim.delay(delay)", rest == exp_rest)
+            J.add(f"edge {t}: afterwards no effect is pending and the mock is not frozen", left[t + 1] == (0, False) if t + 1 < len(left) else False)
+        J.add("enable() is consulted once at the start and once per clock cycle", ncalls[0] == len(edges) + 1)
+        return pattern, J.ob
+
     if scen in ("call_result", "get_call_result"):
         tb = _tbio("m", lay_in, lay_out)
         e = _Endpoint("m", tb, ext=True)
@@ -689,7 +793,8 @@ def _run_py(cfg, ctx):
     note("pysym_feasibility_queries", eng.queries)
     ctx.frames += cfg["K"] * len(paths)
     ctx.steps += cfg["K"] * len(paths)
-    desc = f"{cfg['scen']}[{cfg['lay']} outputs, {cfg['K']} cycles" + (f", args {cfg['args']}" if cfg.get("args") else "") + (f", {cfg['style']}" if cfg.get("style") else "") + "]"
+    desc = f"{cfg['scen']}[{cfg['lay']} outputs, {cfg['K']} cycles" + (f", args {cfg['args']}" if cfg.get("args") else "") + (f", {cfg['style']}" if cfg.get("style") else "") + \
+        (f", effects per cycle {cfg['counts']}, enable() {cfg['enable']}, delay {cfg['delay']}" if cfg["scen"] == "effect_process" else "") + "]"
     ctx.prove(f"{desc}: the {len(paths)} explored paths cover every readiness history", [], z3.Or(*[z3.And(*p.pc) if p.pc else z3.BoolVal(True) for p in paths]), None)
     kinds = {}
     for p in paths:
@@ -697,7 +802,8 @@ def _run_py(cfg, ctx):
     # vacuity: every outcome class that should exist was reached on a feasible path
     want = {"call": [f"done@{cfg['K'] - 1}", "done@0", "pending"], "call_do": [f"done@{cfg['K'] - 1}", "pending"], "call_try": ["none", "value"],
             "call_result": ["none", "value"], "get_call_result": ["none", "value"], "trigger": ["VVV", "NNN", "VNV"],
-            "until_done": ["pending", f"done@{cfg['K'] - 1}:NV"], "until_all_done": ["pending", f"done@{cfg['K'] - 1}:VV"]}[cfg["scen"]]
+            "until_done": ["pending", f"done@{cfg['K'] - 1}:NV"], "until_all_done": ["pending", f"done@{cfg['K'] - 1}:VV"],
+            "effect_process": ["-" * cfg["K"]] + ["".join("X" if c and en else "-" for c, en in zip(cfg.get("counts", []), cfg.get("enable", [])))]}[cfg["scen"]]
     for k in want:
         ps = kinds.get(k, [])
         ctx.witness(f"{desc}: outcome '{k}' is reachable", [z3.Or(*[z3.And(*p.pc) if p.pc else z3.BoolVal(True) for p in ps])] if ps else [z3.BoolVal(False)])
@@ -762,7 +868,7 @@ def run(cfg, ctx):
 # ---------------------------------------------------------------------------------------------------------------------
 # canaries
 # ---------------------------------------------------------------------------------------------------------------------
-def _patch_method(modname, clsname, fname, old, new):
+def _patch_method(modname, clsname, fname, old, new, more=()):
     import importlib
     import inspect
     import textwrap
@@ -772,11 +878,19 @@ def _patch_method(modname, clsname, fname, old, new):
     if getattr(getattr(cls, fname), "_verif_canary", False):
         return
     src = textwrap.dedent(inspect.getsource(getattr(cls, fname)))
-    assert old in src, (fname, old)
+    for o_, n_ in [(old, new), *more]:
+        assert o_ in src, (fname, o_)
+        src = src.replace(o_, n_)
     ns = {}
-    exec(src.replace(old, new), mod.__dict__, ns)
+    exec(src, mod.__dict__, ns)
     ns[fname]._verif_canary = True
     setattr(cls, fname, ns[fname])
+
+
+def _canary_effects_unconditional():
+    # effect_process no longer looks at `done`: effects registered by a mid-cycle evaluation are applied although the method did not execute
+    _patch_method("transactron.testing.method_mock", "MethodMock", "effect_process", "async for *_, done in sim.tick().sample(self.adapter.done):",
+                  "async for _ in sim.tick():", more=[("if done:\n", "if True:\n")])
 
 
 def _canary_no_disable():
@@ -796,7 +910,8 @@ def _canary_adapter_done():
 
 CANARIES = [("CallTrigger does not disable the method after the edge", _canary_no_disable),
             ("CallTrigger returns outputs although done is low", _canary_done_ignored),
-            ("AdapterTrans.done follows en instead of the transaction's run", _canary_adapter_done)]
+            ("AdapterTrans.done follows en instead of the transaction's run", _canary_adapter_done),
+            ("MethodMock.effect_process applies pending effects without checking done", _canary_effects_unconditional)]
 
 
 def classify(v):
